@@ -37,6 +37,7 @@ ALPHABET = [
     ["rename", [["x", "xx"]]],
     ["rename", [[src("T", "x"), "y"], [src("T", "y"), "x"]]],  # swap
     ["select", [Cn("k"), Cn("x")]],
+    ["select", [src("T", "x"), src("T", "k")]],  # by (possibly stale) table references, reordering
     ["drop", [src("T", "y")]],
     ["mutate", [["x", ["add", src("T", "x"), lit(1)]]]],  # overwrite x
     ["mutate", [["x", ["mul", Cn("y"), lit(2)]]]],  # re-create the name x with different data
